@@ -44,6 +44,28 @@ func c17Inventory(repo string) ([]string, error) {
 		if err != nil {
 			return nil, err
 		}
+		// finalizers, cleanups, weak pointers: object lifetime hooks the model does not have
+		for _, im := range f.Imports {
+			if im.Path.Value == `"weak"` {
+				inv = append(inv, "lifetime:import:weak:"+n)
+			}
+		}
+		for _, d := range f.Decls {
+			where := "package"
+			if fd, ok := d.(*ast.FuncDecl); ok {
+				where = fd.Name.Name
+			}
+			ast.Inspect(d, func(nd ast.Node) bool {
+				if sel, ok := nd.(*ast.SelectorExpr); ok {
+					if id, ok := sel.X.(*ast.Ident); ok && id.Obj == nil {
+						if (id.Name == "runtime" && (sel.Sel.Name == "SetFinalizer" || sel.Sel.Name == "AddCleanup")) || id.Name == "weak" {
+							inv = append(inv, fmt.Sprintf("lifetime:%s:%s.%s", where, id.Name, sel.Sel.Name))
+						}
+					}
+				}
+				return true
+			})
+		}
 		for _, d := range f.Decls {
 			switch d := d.(type) {
 			case *ast.GenDecl:
